@@ -1234,6 +1234,26 @@ impl Model for Cw3Model {
                     }
                 }
             }
+            if cfg.props.c06 && cfg.flex {
+                if let Act::Vote { by, id, .. } = a {
+                    // "membership changes made after the proposal was opened never alter its ballots, total or
+                    // outcome": a voter of the proposal's own snapshot who has not voted yet is refused only because
+                    // the group looks different now
+                    if let Some(po) = pre.props.iter().find(|p| p.id == *id) {
+                        let pr = &r.props[(*id - 1) as usize];
+                        let sw = pr.snapshot.get(by).copied().unwrap_or(0);
+                        let votable = matches!(po.status, St::Open | St::Passed | St::Rejected) && !pr.executed && !po.expires.expired(h, t);
+                        let had = po.ballots.contains_key(&cfg.addr(*by));
+                        let group_changed_since = r.group_now != pr.snapshot && !pr.same_block_change;
+                        if votable && !had && sw >= 1 && group_changed_since {
+                            v.push(Violation::new(
+                                "C06.later_group_change_does_not_bar_snapshot_voter",
+                                format!("{a:?} refused ({}): snapshot weight {sw}, group now {:?}", out_tx.as_ref().map(|o| o.err()).unwrap_or_default(), r.group_now),
+                            ));
+                        }
+                    }
+                }
+            }
             return Step { next: State { w, r, obs: s.obs.clone() }, label: lbl, ok, violations: v };
         }
 
